@@ -1,4 +1,54 @@
 import PeptVerif.Model.Proto
-/-! driver for C15 (placeholder: replies bad-op to everything until the model is written) -/
-def step (_line : String) : String := "bad-op"
-def main : IO Unit := Proto.runDriver step
+import PeptVerif.Model.ProtoC10
+import PeptVerif.Model.ModDbGen
+/-! driver for C15: formula / glycan writers and parsers over the generated element and monosaccharide tables -/
+open Proto ProtoC10 ModDb Formula
+
+def MT : MassTable := Gen.massTable
+def MONO : List Entry := Gen.tables.mono
+
+def showStrs (l : List Str) : String := "\t".intercalate (l.map encode)
+
+def step (line : String) : String :=
+  match splitTab line with
+  | ["write", c, sep, hill] =>
+    match parseComp? c, parseBool? hill with
+    | some c, some h => "OK " ++ encode (writeChem MT.elems c (decode sep) h)
+    | _, _ => "bad-op"
+  | ["parse", s, sep] => showCompRes (parseChem (decode s) (decode sep))
+  | ["split", s] =>
+    match splitChem false [] (decode s) with
+    | .ok l => "OK " ++ showStrs l
+    | .error e => showErr e
+  | ["condensed", s] => showCompRes (parseCondensed (decode s))
+  | ["isotope", s] => showCompRes (parseIsotope (decode s))
+  | ["mass", c, mono] =>
+    match parseComp? c, parseBool? mono with
+    | some c, some b => showRatRes (chemMassComp MT b c)
+    | _, _ => "bad-op"
+  | ["mass_str", s, mono, sep] =>
+    match parseBool? mono with
+    | some b => showRatRes (chemMassStr MT b (decode s) (decode sep))
+    | none => "bad-op"
+  | ["gwrite", c, sep] =>
+    match parseComp? c with
+    | some c => "OK " ++ encode (writeGlycan c (decode sep))
+    | none => "bad-op"
+  | ["gparse", s, sep] => showCompRes (parseGlycan MONO (decode s) (decode sep))
+  | ["gcomp", c] =>
+    match parseComp? c with
+    | some c => showCompRes (glycanCompDict MONO c [])
+    | none => "bad-op"
+  | ["gcomp_str", s] => showCompRes (glycanCompStr MONO (decode s))
+  | ["gmass", c, mono] =>
+    match parseComp? c, parseBool? mono with
+    | some c, some b => showRatRes (glycanMassDict MONO b c)
+    | _, _ => "bad-op"
+  | ["gmass_str", s, mono] =>
+    match parseBool? mono with
+    | some b => showRatRes (glycanMassStr MONO b (decode s))
+    | none => "bad-op"
+  | ["names_sorted"] => showStrs (namesSorted MONO)
+  | _ => "bad-op"
+
+def main : IO Unit := runDriver step
